@@ -194,10 +194,15 @@ impl<'a> StateMachine<'a> {
             Ok(utf8) => self.ingest_line_utf8(utf8),
             Err(_) => {
                 let raw_line = String::from_utf8_lossy(raw_line_bytes);
-                let truncated_len = utils::round_char_boundary::floor_char_boundary(
-                    &raw_line,
-                    self.config.max_line_length,
-                );
+                // A maximum line length of 0 means "no limit" (as for valid UTF-8 input).
+                let truncated_len = if self.config.max_line_length > 0 {
+                    utils::round_char_boundary::floor_char_boundary(
+                        &raw_line,
+                        self.config.max_line_length,
+                    )
+                } else {
+                    raw_line.len()
+                };
                 self.raw_line = raw_line[..truncated_len].to_string();
                 // As for valid UTF-8 input: `line` is `raw_line` without escape sequences.
                 self.line = ansi::strip_ansi_codes(&self.raw_line);
